@@ -713,3 +713,47 @@ func returnAlternatives(fn *ssa.Function, i int) []retAlt {
 	}
 	return out
 }
+
+// returnsCallUnmodified: every return of fn (outside the recover block) hands back all the
+// results of one call of callee, unmodified and in order - a thin wrapper that adds
+// nothing of its own to the answer.
+func returnsCallUnmodified(fn, callee *ssa.Function) (ok bool, at ssa.Instruction) {
+	n := 0
+	for _, b := range fn.Blocks {
+		rt, isRet := b.Instrs[len(b.Instrs)-1].(*ssa.Return)
+		if !isRet || b == fn.Recover {
+			continue
+		}
+		n++
+		rv := path.ReturnValues(rt)
+		var tuple ssa.Value
+		good := len(rv) > 0
+		for i, v := range rv {
+			v = path.Unspill(v)
+			if len(rv) == 1 {
+				call, isCall := v.(*ssa.Call)
+				if !isCall || path.StaticCallee(call) != callee {
+					good = false
+				}
+				continue
+			}
+			ex, isEx := v.(*ssa.Extract)
+			if !isEx || ex.Index != i {
+				good = false
+				continue
+			}
+			if tuple == nil {
+				tuple = ex.Tuple
+			} else if tuple != ex.Tuple {
+				good = false
+			}
+			if call, isCall := ex.Tuple.(*ssa.Call); !isCall || path.StaticCallee(call) != callee {
+				good = false
+			}
+		}
+		if !good {
+			return false, rt
+		}
+	}
+	return n > 0, nil
+}
